@@ -114,6 +114,24 @@ def dag(draw, *, max_nodes=12, leaf_profile='plain', kinds=None, p_alias=0.55,
       if tags and draw(st.floats(0, 1)) < 0.4:
         node['tags'] = [[draw(st.sampled_from(list(kw) or [uidp])),
                          draw(st.sampled_from(['TagA', 'TagB', 'TagC', 'TagX']))]]
+    elif kind == 'Bpos':
+      pos = [ref() for _ in range(draw(st.integers(1, 4)))]
+      kw = {}
+      if draw(st.booleans()):
+        kw['k'] = ref()
+      if draw(st.booleans()):
+        kw['z0'] = ref()
+      node = {'k': 'B', 'bt': draw(st.sampled_from(list(bts))), 'fn': {'kind': 'sym', 'name': 'things:g3'},
+              'pos': pos, 'kw': kw, 'edits': []}
+      if tags and draw(st.floats(0, 1)) < 0.5:
+        key = draw(st.sampled_from(['a', 'b', 'k'] + list(range(len(pos)))))
+        node['tags'] = [[key, draw(st.sampled_from(['TagA', 'TagB', 'TagC', 'TagX']))]]
+    elif kind == 'Bmut':
+      kw = {'a': {'leaf': {'$sym': 'things:_MUTABLE_DEFAULT'}}}
+      if draw(st.booleans()):
+        kw['b'] = ref()
+      node = {'k': 'B', 'bt': draw(st.sampled_from(list(bts))), 'fn': {'kind': 'sym', 'name': 'things:mutdef'},
+              'pos': [], 'kw': kw, 'edits': []}
     elif kind in ('list', 'tuple'):
       node = {'k': kind, 'items': [ref() for _ in range(draw(st.integers(0, 3)))]}
     elif kind == 'dict':
